@@ -10,5 +10,5 @@ package oid
 // asn1.Unmarshal or one of this package's constants, for which Marshal cannot fail. Trusted.
 //@ func OidBytes
 //@   trusted
-//@   ensures fresh(result) && len(result) <= 10 * len(oid) + 8
+//@   ensures fresh(result) && len(result) <= 10 * len(oid) + 8 && result === oidBytesOf(oid)
 //@   assigns nothing
